@@ -313,4 +313,88 @@ func init() {
 			}
 			r.Check(unified, "rename/type-switch-variable", fi.Decl.Pos(), "the per-clause objects of a type switch's symbolic variable and its declaring identifier receive the same new name")
 		})
+	register("C17.R9", "a failing package does not prevent output for the others — also when it fails to load: errors the loader reports for one root package are attached to that package's result instead of aborting the invocation",
+		func(c *Ctx, r *R) {
+			fi := r.Need(c.Fn(c.W, "load"), "load")
+			if fi == nil {
+				return
+			}
+			n := 0
+			for _, ret := range fi.returnsOf() {
+				if len(ret.Results) != 2 || !fi.isNilIdent(ret.Results[0]) {
+					continue
+				}
+				v := fi.varOf(ret.Results[1])
+				if v == nil {
+					continue
+				}
+				// does the returned error list accumulate the per-package Errors of all packages?
+				accumulates := false
+				srcs := []*FuncInfo{fi}
+				for _, d := range fi.defs[v] {
+					if cl, ok := ast.Unparen(d.rhs).(*ast.CallExpr); ok {
+						if h := c.FnOf(fi.callee(cl)); h != nil {
+							srcs = append(srcs, h)
+						}
+					}
+				}
+				for _, f := range srcs {
+					f.inspect(f.Decl.Body, func(nd ast.Node) bool {
+						if rs, ok := nd.(*ast.RangeStmt); ok {
+							if fld := f.selField(rs.X); fld != nil && fld.Name() == "Errors" {
+								accumulates = true
+							}
+						}
+						return true
+					})
+				}
+				if accumulates {
+					n++
+					r.Bad("load/package-errors-abort-all", ret.Pos(), "the errors of every root package are merged and returned with no packages: one package that does not type-check (or one unresolvable pattern) stops generation for all the others")
+				}
+			}
+			if n == 0 {
+				r.Ok("load/package-errors-abort-all", fi.Decl.Pos(), "load does not turn per-package errors into a global failure")
+			}
+		})
+
+	register("C18.R6", "the build constraint cannot be displaced by the header: it is written in the //go:build form, which gofmt treats as authoritative — written only as // +build, a header that carries its own //go:build line makes gofmt drop wire's constraint, and the generated file then joins the wireinject build",
+		func(c *Ctx, r *R) {
+			t := traceOf(c, r, "gen.frame")
+			if t == nil {
+				return
+			}
+			r.Check(strings.Contains(t.text, "//go:build !wireinject"), "frame/constraint-in-go-build-form", t.fi.Decl.Pos(), "frame emits //go:build !wireinject")
+		})
+
+	register("C16.R7", "names and code come from the user's files, not from tool output: a package whose syntax was produced by cgo (the loader parses CompiledGoFiles, build-cache files with cgo-translated code) is rejected or mapped back to its source files before section banners and copied declarations are taken from it",
+		func(c *Ctx, r *R) {
+			g := r.Need(c.Fn(c.W, "Generate"), "Generate")
+			if g == nil {
+				return
+			}
+			rr := c.reach(g)
+			aware := false
+			for f := range rr.in {
+				ast.Inspect(f.Decl, func(nd ast.Node) bool {
+					switch x := nd.(type) {
+					case *ast.SelectorExpr:
+						if x.Sel.Name == "CompiledGoFiles" {
+							aware = true
+						}
+					case *ast.BasicLit:
+						if x.Value == `"C"` {
+							aware = true
+						}
+					}
+					return true
+				})
+			}
+			gi := c.Fn(c.W, "generateInjectors")
+			pos := g.Decl.Pos()
+			if gi != nil {
+				pos = gi.Decl.Pos()
+			}
+			r.Check(aware, "generate/cgo-translated-syntax", pos, "some function reachable from Generate distinguishes cgo-translated files")
+		})
 }
